@@ -35,6 +35,7 @@ var c03Containers = [][2]string{
 	{"<blockquote>", "</blockquote>"},
 	{"<table><tr><td>", "</td></tr></table>"},
 	{"<div>", "</div>"},
+	{"", ""}, // directly in <body>
 }
 
 type c03Sym struct {
@@ -75,7 +76,11 @@ func HarnessC03Paragraph() {
 		body += strings.Replace(c03Kids[k], "%w", w, 1)
 		desc += string(rune('A' + k))
 	}
-	page := "<html><head><title>T</title></head><body>" + cont[0] + body + cont[1] + "<div><p>tail words here</p></div></body></html>"
+	tail := "<div><p>tail words here</p></div>"
+	if cont[0] == "" && vx.Choose("alone", 2) == 1 {
+		tail = "" // the paragraph is all there is in <body>
+	}
+	page := "<html><head><title>T</title></head><body>" + cont[0] + body + cont[1] + tail + "</body></html>"
 	doc := vx.ParseHTML(page)
 	ce := NewContentExtractor(dom.QuerySelector(doc, "html"), nil, nil)
 	ce.WordCounter = &c03Sym{memo: map[string]int{}, max: vx.Param("maxwc", 100)}
